@@ -111,6 +111,8 @@ fn main() {
         ("replay", "rs") => replay::<rs::RsSut>(&args),
         ("scenario", "rs") => scenario::<rs::RsSut>(&args),
         ("drive", "rs") => rs::drive(&args),
+        ("rsdist", _) => rs::dist(&args),
+        ("rsfreq", _) => rs::freq(&args),
         ("replay", "td") => replay::<td::TdSut>(&args),
         ("scenario", "td") => scenario::<td::TdSut>(&args),
         ("drive", "td") => td::drive(&args),
